@@ -203,11 +203,29 @@ def install_solver(solver, sync=False):
     return restore
 
 
-def run_case(acc, outcomes, default, replies, early, cache, threads, via_main=False, sync=False):
+def run_case(acc, outcomes, default, replies, early, cache, threads, via_main=False, sync=False, latecb=False):
     import halmos.__main__ as M
 
     solver = ScriptedSolver(replies)
     restore = install_solver(solver, sync)
+    if latecb:
+        # scheduling choice "callbacks last": the worker thread is preempted between completing a solver future and running its
+        # done-callback (which is where the answer is recorded): the verdict must still wait for it
+        orig_cb = M.CounterexampleHandler._solve_end_to_end_callback
+
+        def slow_cb(self, future, ex, path_ctx, description):
+            import time
+
+            time.sleep(0.25)
+            return orig_cb(self, future, ex=ex, path_ctx=path_ctx, description=description)
+
+        M.CounterexampleHandler._solve_end_to_end_callback = slow_cb
+        _restore_cb = restore
+
+        def restore():
+            M.CounterexampleHandler._solve_end_to_end_callback = orig_cb
+            _restore_cb()
+
     if sync:
         # observe the futures the handler submits (seam: CounterexampleHandler keeps them in submitted_futures)
         orig_handle = M.CounterexampleHandler.handle_assertion_violation
@@ -225,8 +243,8 @@ def run_case(acc, outcomes, default, replies, early, cache, threads, via_main=Fa
             _restore0()
 
     cmd = "scripted-solver"
-    name = f"paths={outcomes}+{default} replies={replies} early={int(early)} cache={int(cache)} threads={threads}{' main' if via_main else ''}{' replies-first' if sync else ''}"
-    case = {"outcomes": outcomes, "default": default, "replies": replies, "early": early, "cache": cache, "threads": threads, "main": via_main, "sync": sync}
+    name = f"paths={outcomes}+{default} replies={replies} early={int(early)} cache={int(cache)} threads={threads}{' main' if via_main else ''}{' replies-first' if sync else ''}{' callbacks-last' if latecb else ''}"
+    case = {"outcomes": outcomes, "default": default, "replies": replies, "early": early, "cache": cache, "threads": threads, "main": via_main, "sync": sync, "latecb": latecb}
     want = reference_verdict(outcomes, default, replies)
     c = mk_contract(outcomes, default)
     try:
@@ -314,6 +332,13 @@ def cases(tier):
                                 if default == "revert" and not early:
                                     continue
                                 out.append({"outcomes": list(outcomes), "default": default, "replies": rs, "early": early, "cache": False, "threads": nq, "main": False})
+    # the done-callback of the last query runs late
+    for o in ("panic", "failflag"):
+        for r in ("sat", "unknown", "garbage", "crash", "unsat"):
+            for default in ("success", "revert"):
+                for threads in (1, 2):
+                    out.append({"outcomes": [o], "default": default, "replies": [r], "early": False, "cache": False, "threads": threads, "main": False, "latecb": True})
+        out.append({"outcomes": [o, "success", o], "default": "success", "replies": ["unsat", "unsat", "sat"], "early": False, "cache": False, "threads": 2, "main": False, "latecb": True})
     # process exit code through _main
     for outcomes, replies in ((["panic"], ["sat"]), (["panic"], ["unsat"]), (["panic"], ["unknown"]), (["panic"], ["garbage"]), (["success"], ["unsat"]), (["stuck"], ["unsat"]), (["stuck"], ["sat"]),
                               (["revert"], ["unsat"]), (["failflag"], ["sat"]), (["failflag"], ["crash"]), (["panic", "panic"], ["unsat", "sat"]), (["panic", "stuck"], ["unsat", "unknown"])):
@@ -335,7 +360,7 @@ def run_shard(shard):
     hdriver.install_uid()
     acc = Acc(max_violations=30)
     for c in shard["cases"]:
-        run_case(acc, c["outcomes"], c["default"], c["replies"], c["early"], c["cache"], c["threads"], c["main"], c.get("sync", False))
+        run_case(acc, c["outcomes"], c["default"], c["replies"], c["early"], c["cache"], c["threads"], c["main"], c.get("sync", False), c.get("latecb", False))
     if shard["cases"]:
         c = shard["cases"][0]
         acc.sample({"paths": c["outcomes"] + [c["default"]], "solver_replies": c["replies"], "early_exit": c["early"], "cache_solver": c["cache"], "reference_verdict": reference_verdict(c["outcomes"], c["default"], c["replies"])})
@@ -360,6 +385,6 @@ def replay(case):
     hdriver.install_logging()
     hdriver.install_uid()
     acc = Acc()
-    run_case(acc, case["outcomes"], case["default"], case["replies"], case["early"], case["cache"], case["threads"], case.get("main", False), case.get("sync", False))
+    run_case(acc, case["outcomes"], case["default"], case["replies"], case["early"], case["cache"], case["threads"], case.get("main", False), case.get("sync", False), case.get("latecb", False))
     v = acc.result()["violations"]
     return {"violated": bool(v), "obs": [x["what"] for x in v][:3], "key": v[0]["key"] if v else ""}
